@@ -216,6 +216,14 @@ def check_xy_continuation(ctx, db):
     d = clone.first_diff(a, b)
     ctx.check(d is None, 'R-CLONE', 'read_gds/XY:polygon~path-continuation', cont.loc() if cont is not None else top.loc(), 'a continuation XY record of a PATH is decoded exactly like a BOUNDARY XY record (all points from the start of the payload)',
               None if d is None else 'PATH continuation XY block differs from the BOUNDARY XY block at line %d: `%s` vs `%s`' % d)
+    # both blocks APPEND: the write cursor starts at items + count and the count grows by the number of points of this record
+    for lab, blk in (('BOUNDARY', poly),):
+        t = norm(' '.join(x.text() for x in blk.walk() if x.k == 'VarDecl' and x.child('init') is not None and 'items' in x.child('init').text()) + ' ' + ' '.join(x.text() for x in blk.walk() if x.k == 'CompoundAssignOperator' or is_assign(x)))
+        app = re.search(r'\(double \*\)\((\S+)\.items \+ \1\.count\)', t) is not None and re.search(r'\.count \+= \(data_length / 2\)', t) is not None and re.search(r'\.count = ', t) is None
+        ctx.check(app, 'R-SHAPE', 'read_gds/XY:%s-appends' % lab, blk.loc(), 'points of an XY record are appended after those already loaded (a boundary with more than 8190 points spans several XY records)',
+                  'the %s XY block does not append (cursor at items + count, count += points): a later XY record of the same element overwrites the earlier ones' % lab)
+    seg = [c for c in pathif.child('then').walk() if c.k == 'CXXMemberCallExpr' and (c.callee or '').endswith('FlexPath::segment')]
+    ctx.check(len(seg) == 1 and seg[0].id > cont.id and norm(seg[0].args[0].text()).endswith('point_array') or (len(seg) == 1 and 'point_array' in norm(seg[0].args[0].text())), 'R-SHAPE', 'read_gds/XY:PATH-appends', pathif.loc(), 'the points of every PATH XY record are appended to the spine through FlexPath::segment')
     # first record: first point -> spine.append + width entry, rest from data32 + 2
     keep = {}
     for v in f.walk():
